@@ -157,6 +157,10 @@ class Recorder:
         self.n = 0
         self.fired = False
         self.in_call = False  # inside a backend primitive (where a real signal may land)
+        self.closed = False  # the operation has returned: any further call is work left behind
+        self.late: list[str] = []  # calls made after the operation returned (bounded)
+        self.spawned: list[str] = []  # threads / timers started from inside the operation (bounded)
+        self.pending: list = []  # intercepted threading.Timer objects (never started for real)
         self.nmore = 0
         self.max_calls = MAX_CALLS
         self.wall_deadline: float | None = None  # real runs: time.monotonic() after which we give up
@@ -170,6 +174,10 @@ class Recorder:
     def call(self, name: str, fn, log_args: dict, log_res):
         """Run backend primitive `fn()`; `log_res(result)` -> result fields of the event."""
         if name in self.quiet:
+            return fn()
+        if self.closed:
+            if len(self.late) < 50:
+                self.late.append(name)
             return fn()
         # watchdogs fire once; the clean-up calls of the unwinding library then get 50 more calls
         if self.n >= self.max_calls:
@@ -270,6 +278,54 @@ class Recorder:
         if not self.hooks_on:
             return None
         return self.call("hook", lambda: None, {"a": which}, lambda r: {})
+
+
+class watch_threads:
+    """While an operation runs, threads started from its thread are made visible to the world:
+    a `threading.Timer` is intercepted (recorded, NOT started - :func:`settle` runs its function
+    after the call has returned and been observed), any other thread is recorded and started."""
+
+    def __init__(self, rec: Recorder):
+        self.rec = rec
+
+    def __enter__(self):
+        import threading
+
+        rec, owner, orig = self.rec, threading.get_ident(), threading.Thread.start
+        self.orig = orig
+
+        def start(thread):
+            if threading.get_ident() != owner or rec.closed:
+                return orig(thread)
+            if len(rec.spawned) < 20:
+                rec.spawned.append(f"{type(thread).__name__}({getattr(thread, 'interval', '')})")
+            if isinstance(thread, threading.Timer):
+                if len(rec.pending) < 20:
+                    rec.pending.append(thread)
+                return None
+            return orig(thread)
+
+        threading.Thread.start = start
+        return self
+
+    def __exit__(self, *exc):
+        import threading
+
+        threading.Thread.start = self.orig
+        return False
+
+
+def settle(rec: Recorder) -> None:
+    """The call has returned and its outcome has been observed: now let the work it left behind
+    (intercepted timers) run; every terminal access it makes is logged in `rec.late`."""
+    rec.closed = True
+    rec.wall_deadline = None
+    for timer in rec.pending:
+        try:
+            timer.function(*timer.args, **timer.kwargs)
+        except BaseException:  # noqa: BLE001 - whatever it does, only its terminal accesses matter
+            pass
+    rec.pending = []
 
 
 class _OsProxy:
@@ -632,12 +688,18 @@ def run_virtual(scn: dict, fault: dict | None = None) -> dict:
         stream = sys.stdout = Stream(rec, FAKE_FD)
     hang = ""
     try:
-        final = run_op(rec, op)
+        with watch_threads(rec):
+            final = run_op(rec, op)
     except Hang as h:
         hang = str(h)
         final = {"status": "hung", "kind": type(h).__name__, "rb": [], "rnone": True, "val": dict(NOVAL)}
     finally:
         sys.stdout = old_stdout
+    # observed at the moment the call returns ...
     final.update(residual=list(dev.residual()), attr=dev.attr, elapsed=dev.now, slack=0,
                  wlog=[list(w) for w in dev.wlog], hang=hang)
+    # ... then whatever it left behind runs
+    dev.time_limit = None
+    settle(rec)
+    final.update(spawned=list(rec.spawned), late=list(rec.late), attr_settled=dev.attr)
     return {"events": rec.events, "final": final, "fired": rec.fired, "op": op}
